@@ -9,7 +9,7 @@ use serde_json::{json, Value};
 pub fn auth_small(f: Family, level: u8) -> Vec<Option<Vec<u8>>> {
 	// "h" / "%68": two spellings of one authority under ==
 	// "h:": an authority that ENDS with ':' (empty port)
-	let mut v: Vec<Option<&str>> = vec![None, Some(""), Some("h"), Some("%68"), Some("u@h:1"), Some("[::1]"), Some("h:")];
+	let mut v: Vec<Option<&str>> = vec![None, Some(""), Some("h"), Some("%68"), Some("u@h:1"), Some("[::1]"), Some("h:"), Some("%7eu@caf%c3%a9")];
 	if level >= 1 {
 		v.extend([Some("u:p@[v1.a:b]:065535"), Some("a.b:"), Some("@")]);
 	}
@@ -46,7 +46,7 @@ pub fn tails_f(f: Family, level: u8) -> Vec<Option<Vec<u8>>> {
 }
 
 pub fn path_values(f: Family) -> Vec<Vec<u8>> {
-	let mut v: Vec<&str> = vec!["", "/", "a", "%61", "/a", "/%61", "/a/.", "//a", "a:b", "./a:b", "a/../b:c", "/.//a", "1:b", ":", "a/b/c/d/e/f/g", "//", "/a:b", "/a:b/c", "/:", "..a:b/c"];
+	let mut v: Vec<&str> = vec!["", "/", "a", "%61", "/a", "/%61", "/a/.", "//a", "a:b", "./a:b", "a/../b:c", "/.//a", "1:b", ":", "a/b/c/d/e/f/g", "//", "/a:b", "/a:b/c", "/:", "..a:b/c", "/%7euser/%c3%a9"];
 	if f == Family::Iri {
 		v.push("é/é:é");
 		v.push("é:b");
@@ -73,10 +73,11 @@ macro_rules! setter_values {
 		for p in path_values($f) {
 			ops.push(SOp::Path(p));
 		}
-		for q in [None, Some(""), Some("y"), Some("q"), Some("%71"), Some("a:b/c?d=@"), Some("0123456789012345678901234567890123456789012345")] {
+		// "%c3%a9", "%7e": escapes in lower-case hex - a setter writes its argument as given
+		for q in [None, Some(""), Some("y"), Some("q"), Some("%71"), Some("%c3%a9=%7e"), Some("a:b/c?d=@"), Some("0123456789012345678901234567890123456789012345")] {
 			ops.push(SOp::Query(q.map(domains::b)));
 		}
-		for fr in [None, Some(""), Some("g"), Some("f"), Some("%66"), Some("a:/?b@"), Some("0123456789012345678901234567890123456789012345")] {
+		for fr in [None, Some(""), Some("g"), Some("f"), Some("%66"), Some("%c3%a9%7e"), Some("a:/?b@"), Some("0123456789012345678901234567890123456789012345")] {
 			ops.push(SOp::Fragment(fr.map(domains::b)));
 		}
 		ops
